@@ -566,8 +566,8 @@ impl Harness for C10 {
             }
         }
         // SVR structured larger sets
-        for n in [8usize, 20, 40, 80] {
-            if !t && n > 20 {
+        for n in [8usize, 20, 72, 40, 80] {
+            if !t && n > 20 && n != 72 {
                 continue;
             }
             for variant in 0..3usize {
@@ -598,7 +598,7 @@ impl Harness for C10 {
             bounds: json!({
                 "svc_all_orders": "every x sequence over {0,1,2}^4 x every labelling with both classes x 4 kernels x (C,tol,encoding) settings x ALL (4!)^2 visiting orders (epoch 1); 2-D: every 4-subset of the 3x2 lattice; epoch 2 ((4!)^3 orders) on one sequence family (all in thorough); n=5 with all (5!)^2 orders in thorough",
                 "svc_deviation_bounded": "n=6..8 fixed point sets, epochs 1,2(,4): every schedule with at most 1 (2 thorough) non-identity Fisher-Yates steps",
-                "svr": "every x sequence over {0,1,2}^n, y over {-1,0,2}^n, n<=4 (5 thorough) x eps {0,.1,.5} x C {.1,1,100} x tol {1e-2,1e-3,1e-4} x {linear,rbf,poly}; structured sets up to n=20 (80)",
+                "svr": "every x sequence over {0,1,2}^n, y over {-1,0,2}^n, n<=4 (5 thorough) x eps {0,.1,.5} x C {.1,1,100} x tol {1e-2,1e-3,1e-4} x {linear,rbf,poly}; structured sets n in {8,20,72} (also 40,80 thorough)",
                 "kernels": "every vector pair of length <=2 over {0,±1,±2} and length 3 over {0,±1} (all in thorough); Gram matrices of every point sequence n<=4",
             }),
         }
